@@ -40,6 +40,35 @@ var c03RoundTrip = probe.Define("C03", "roundtrip",
 		if dm.NextPayload != first {
 			return probe.Fail("decoded header NextPayload = %d, first payload has type %d", dm.NextPayload, first)
 		}
+		// The decoded message is the receiver's own. It answers with it: the header fields are edited in the decoded object (the
+		// other direction, the next message id, another exchange type) and it is sent; and the payload list is handed to a NEW
+		// message with that header. Both encode to the edited header followed by the same payloads.
+		h2 := in.Msg.Header
+		h2.ISPI, h2.RSPI = h2.RSPI, h2.ISPI+1
+		h2.Flags ^= 0x28
+		h2.MsgID += 0x01000001
+		h2.Exchange ^= 3
+		h2.Major, h2.Minor = h2.Minor, h2.Major
+		shell, err := bridge.ToLib(model.Message{Header: h2})
+		if err != nil {
+			return probe.Fail("HARNESS: %v", err)
+		}
+		shell.Payloads = dm.Payloads
+		dm.InitiatorSPI, dm.ResponderSPI, dm.Flags, dm.MessageID, dm.ExchangeType = h2.ISPI, h2.RSPI, h2.Flags, h2.MsgID, h2.Exchange
+		dm.MajorVersion, dm.MinorVersion = h2.Major, h2.Minor
+		for i, x := range []*message.IKEMessage{dm, shell} {
+			var w2 []byte
+			if err := probe.Try(func() error { var e error; w2, e = x.Encode(); return e }); err != nil {
+				return probe.Fail("encoding the decoded message with edited header fields (variant %d): %v", i, err)
+			}
+			pm, perr := ref.ParseMessage(w2, ref.Parse{Strict: true})
+			if perr != nil {
+				return probe.Fail("the decoded message with edited header fields (variant %d) encodes to something that is not well-formed: %v", i, perr)
+			}
+			if d := model.Diff(model.Message{Header: h2, Payloads: in.Msg.Payloads}, pm); d != "" {
+				return probe.Fail("the decoded message, its header fields edited by the receiver (variant %d: 0 = in place, 1 = payload list moved into a new message), encodes to: %s", i, d)
+			}
+		}
 		return probe.Outcome{NonTrivial: len(in.Msg.Payloads) > 0, Labels: in.Msg.Labels()}
 	})
 
